@@ -530,3 +530,8 @@ def run(ctx: Ctx, rep: Report, tier: str):
             okc = "collate" not in txt.lower() and len(tagdef) == 1 and tagdef[0].lower().split() == ["tag", "text", "not", "null"]
             rep.check("C09.R13", "schema|tag-column", ctx.line(f_, call_), okc, "tag TEXT NOT NULL, no collation",
                       "the table is created as `%s`: the tag column (%s) is not compared byte for byte - rows of one tag are read, updated and deleted through another tag" % (txt[:120], tagdef))
+    from rules.decisions import decision_table, table_sites
+    rep.rule("C09.DT", "decision table (rules/decisions.json) of the sqlite storage backend: for every function and every action shape (an impure call with the parameters it passes, a store to an "
+             "attribute or item, a delete, a returned constant, a yield, a raise) the set of states - over the function's guard atoms - in which the action is taken "
+             "equals the recorded one; compared as canonical decision diagrams, so any equivalent respelling of the guards is the same table", table_sites("C09"))
+    section(rep, lambda: decision_table(ctx, rep, "C09.DT", "C09"))
